@@ -117,7 +117,15 @@ def model_of_topology(T):
                             devices=list(T["devs"][up]), starts=[2, 1, 3, 4][: 3 + k],
                             start="2025-01-01T0%d:00:00" % (3 * k))
     m["sys"] = efx.new_obj("System", usage_patterns=list(T["sysups"]))
+    # non-default values where the defaults (no initial storage need, small base consumptions) would hide an in-place addition
+    for n in efx.names_of(m, "Storage"):
+        m[n]["inp"]["base_storage_need"] = [2, "TB"]
+    for n in efx.names_of(m, "Server"):
+        m[n]["inp"]["base_ram_consumption"] = [4, "GB"]
     return m
+
+
+COVERED_INPUTS = set()       # (class, attribute) pairs already edited in this run: the sample favours the others
 
 
 def edits_of_topology(model, rng, n_inputs, max_list=1):
@@ -151,7 +159,15 @@ def edits_of_topology(model, rng, n_inputs, max_list=1):
     for v in by("Server"):
         inputs.append(("opt", v, "server_type", "serverless"))
     if n_inputs is not None:
-        inputs = rng.sample(inputs, min(n_inputs, len(inputs)))
+        rng.shuffle(inputs)
+        key = lambda e: (model[e[1]]["cls"], e[2])
+        fresh, seen = [], set()
+        for e in inputs:
+            if key(e) not in COVERED_INPUTS and key(e) not in seen:
+                fresh.append(e)
+                seen.add(key(e))
+        inputs = (fresh + [e for e in inputs if e not in fresh])[:n_inputs]
+        COVERED_INPUTS.update(key(e) for e in inputs)
     return edits + inputs
 
 
@@ -165,7 +181,7 @@ def replay_model_domain(ns, wd, out, tier, tid0):
     n_edits = 0
     for T in chosen:
         model = model_of_topology(T)
-        for edit in edits_of_topology(model, rng, 10 if tier == "thorough" else 4):
+        for edit in edits_of_topology(model, rng, 10 if tier == "thorough" else 8):
             tid += 1
             try:
                 h = history.LiveHistory(ns, log, tid, model)
